@@ -113,6 +113,14 @@ Qed.
 Lemma zrange_length a b : (a <= b)%Z -> length (zrange a b) = Z.to_nat (b - a).
 Proof. intros H. unfold zrange. rewrite map_length, seq_length. reflexivity. Qed.
 
+(* the tiling ends where the last highlight ends, or where it began *)
+Lemma region_last_le : forall hs st en,
+  (st <= en)%Z -> Forall (fun h => (h_end h <= en)%Z) hs -> (region_last hs st <= en)%Z.
+Proof.
+  induction hs as [|h hs IH]; intros st en Hs Hf; cbn [region_last]; [exact Hs|].
+  inversion Hf as [|? ? Hh Hr]; subst. destruct (h_beg h <? st)%Z; apply IH; assumption.
+Qed.
+
 Section Numbers.
   Variable style style_unsure number_style : str.
   Hypothesis Hstyle : no_lt style = true.
@@ -167,9 +175,8 @@ Section Numbers.
   Theorem region_out_numbered tex reg html ov nums :
     region_out style style_unsure tex (line_starts tex) reg = Ok (html, ov, nums) ->
     (match reg with h0 :: _ => 0 <= h_beglin h0 <= max_endlin reg | [] => False end)%Z ->
-    (forall st en, match reg with h0 :: _ => start_at (line_starts tex) (h_beglin h0) = Ok st | [] => False end ->
-                   start_at (line_starts tex) (max_endlin reg) = Ok en ->
-                   region_last reg st <= en)%Z ->
+    (forall en, start_at (line_starts tex) (max_endlin reg) = Ok en ->
+                Forall (fun h => h_end h <= en) reg)%Z ->
     Forall (fun h => (h_beg h <= h_end h)%Z) reg ->
     Forall (fun h => url_ok (h_m h)) reg ->
     exists (cs : list (list atom)) b e p q,
@@ -193,9 +200,11 @@ Section Numbers.
     inversion H; subst html ov nums. clear H.
     destruct (start_at_nth (line_starts tex) (h_beglin h0) st ltac:(lia) Es) as (p & Np & Ep).
     destruct (start_at_nth (line_starts tex) (max_endlin (h0 :: r)) en ltac:(lia) Ee) as (q & Nq & Eq). subst st en.
-    specialize (Hl (Z.of_nat p) (Z.of_nat q) eq_refl eq_refl).
+    specialize (Hl (Z.of_nat q) eq_refl).
     set (b := Z.to_nat (h_beglin h0)) in *. set (e := Z.to_nat (max_endlin (h0 :: r))) in *.
     assert (Hbe : (b <= e)%nat) by (unfold b, e; lia).
+    destruct (stretch_breaks tex b e p q Hbe Np Nq) as [[Lpq _] _].
+    apply (region_last_le (h0 :: r) (Z.of_nat p) (Z.of_nat q) ltac:(lia)) in Hl.
     destruct (region_rows_numbered tex (h0 :: r) b e p q Hbe Np Nq Hl Hf Hu)
       as (cs & C1 & C2 & C3 & C4).
     exists cs, b, e, p, q.
